@@ -53,7 +53,7 @@ def gen(rng):
         L = np.array([[[0, 1], [-1, 0]], [[2, 1], [0, 3]], [[2, 0], [0, 3]], [[-1, 0], [0, -1]]][int(rng.integers(0, 4))], dtype=float)      # no eigenvalue 1
         t = np.array([float(rng.integers(0, 30)), float(rng.integers(0, 30))])
         t = t - np.minimum(0, (ref @ L + t).min(axis=0)) + 1.0
-    centre = [None, np.zeros(2), rng.uniform(-30, 60, 2)][int(rng.integers(0, 3))]
+    centre = [None, np.zeros(2), rng.uniform(-30, 60, 2), np.array([0.0, float(rng.uniform(5, 60))]), np.array([float(rng.integers(5, 60)), 0.0])][int(rng.integers(0, 5))]     # also centres on an axis
     w = [None, np.full(n, float(rng.uniform(0.1, 5))), rng.uniform(0.1, 10, n), rng.integers(1, 200, n).astype(float)][int(rng.integers(0, 4))]
     return ref, L, t, centre, w
 
